@@ -458,6 +458,26 @@ func (rn *runner) run(s Scenario) bool {
 				rn.stall(cr)
 				fail()
 			}
+		case "stop":
+			// the application stops the server while connections are open (and idle): every one of them is closed by the
+			// server and its loop returns
+			rn.rec.Emit(Ev{"ev": "stop", "c": st.C})
+			if err := server.Stop(); err != nil {
+				rn.rec.Emit(Ev{"ev": "note", "c": st.C, "stop_error": err.Error()})
+			}
+			for i, other := range conns {
+				if started[i] && !other.stalled && !other.sc.WaitQuiet(rn.timeout) {
+					rn.stall(other)
+					fail()
+				}
+			}
+		case "start":
+			// ... and starts it again (connections opened from here on belong to the new run)
+			errs := ""
+			if err := server.Start(); err != nil {
+				errs = err.Error()
+			}
+			rn.rec.Emit(Ev{"ev": "note", "c": st.C, "start_error": errs})
 		case "wfail":
 			cr.sc.mu.Lock()
 			cr.sc.wfailAt = st.WFailAt
